@@ -73,10 +73,185 @@ def stress(c, binary, configs):
         p = subprocess.run([binary, "c14-stress", str(c.seed), str(m), str(g), str(n)], stdout=subprocess.PIPE,
                            stderr=subprocess.PIPE, text=True, timeout=300, env=GOENV)
         out = p.stdout.strip() or ("crash: " + p.stderr[-500:])
-        if out != "ok":
+        if out.startswith("ok"):
+            for kv in out.split()[1:]:
+                k, _, v = kv.partition("=")
+                c.cov.setdefault("limitpool_stress_objects", {}).setdefault(k, 0)
+                c.cov["limitpool_stress_objects"][k] += int(v)
+        else:
             bad.append({"maxTokens": m, "goroutines": g, "ops": n, "result": out,
                         "how": "h c14-stress %d %d %d %d" % (c.seed, m, g, n)})
     return bad
+
+
+# ---------------------------------------------------------------------------------------------------------------
+# LimitPool, sequential differential over the BUDGET domain (NewLimitPool is exercised, not only pinned) and the
+# objects Get returns; model side `modelrun limitpool-seq` (lp_init / lp_exec1 run alone), Go side `h c14-lpseq`.
+SPECIAL_BUDGETS = [0, 1, 2, 3, 4, 5, 1023, 1024, 1025, 4095, 65535, 65536, 2 ** 31 - 1, 2 ** 31 + 5, 2 ** 32 - 1, 2 ** 32,
+                   2 ** 32 + 1, 2 ** 62, 2 ** 63 - 1]
+
+
+def budgets():
+    b = set(SPECIAL_BUDGETS)
+    for k in range(0, 41):
+        b.update(x for x in (2 ** k - 1, 2 ** k, 2 ** k + 1))
+    return sorted(b)
+
+
+def gen_lpseq(c, tier):
+    r = random.Random(c.seed * 11 + 5)
+    exhaust_upto = 5000 if tier == "quick" else 70000
+    lines = []
+    bs = budgets()
+    for b in bs:
+        # white-box: counter after construction, after n Gets (= max - n), after Puts; the same for every budget
+        lines.append("%d t g7 t p3 t g5 t p100 t g2 t" % b)
+        if b <= exhaust_upto:
+            # behavioural: EXACTLY b of b+3 Gets succeed; Put k; exactly k of k+2 succeed; Put everything; exactly b again
+            k = r.randint(1, max(1, min(b, 50)))
+            lines.append("%d t g%d t p%d t g%d t p%d t g%d t" % (b, b + 3, k, k + 2, b + 5, b + 1))
+    for b in (-1, -3):              # outside the property's quantifier (maxTokens >= 0), the model still is the code
+        lines.append("%d t g3 t" % b)
+    for _ in range(200 if tier == "quick" else 4000):
+        b = r.choice([r.choice(bs), r.randint(0, 40), r.randint(0, 40), r.randint(41, 3000)])
+        toks = []
+        for _ in range(r.randint(3, 12)):
+            x = r.random()
+            toks.append("t" if x < 0.3 else "g%d" % r.choice([1, 2, 3, r.randint(0, 60), b % 97]) if x < 0.7 else "p%d" % r.choice([1, 2, r.randint(0, 60)]))
+        lines.append("%d %s" % (b, " ".join(toks)))
+    return lines
+
+
+def impl_tokens(line):
+    """the Go side appends ' !<text>' to a g-token when an object clause is violated: glue it back"""
+    out = []
+    for t in line.split():
+        if t.startswith("!") and out:
+            out[-1] += " " + t
+        else:
+            out.append(t)
+    return out
+
+
+def lpseq(c, binary, tier):
+    lines = gen_lpseq(c, tier)
+    text = "\n".join(lines) + "\n"
+    rc, impl, err = c.run_impl(binary, ["c14-lpseq"], text)
+    model = c.run_model("limitpool-seq", text)
+    objs = {}
+    if impl and impl[-1].startswith("#"):
+        objs = {k: int(v) for k, _, v in (kv.partition("=") for kv in impl[-1].split()[1:])}
+        impl = impl[:-1]
+    na = agree = 0
+    reported = 0
+    for i, l in enumerate(lines):
+        ops = l.split()
+        a = impl_tokens(impl[i]) if i < len(impl) else ["crash"]
+        b = model[i].split() if i < len(model) else []
+        k = next((j for j in range(max(len(a), len(b)))
+                  if j >= len(a) or j >= len(b) or (a[j] != b[j] and a[j] != "tna")), None)
+        na += a.count("tna")
+        nontrivial = int(ops[0]) >= 5 and any(o.startswith("p") for o in ops[1:]) and any(o.startswith("g") for o in ops[1:])
+        c.note_case("lpseq:" + l, nontrivial)
+        if k is None:
+            agree += 1
+            continue
+        if reported >= 4:
+            continue
+        reported += 1
+        got, want = (a[k] if k < len(a) else None), (b[k] if k < len(b) else None)
+        op = ops[1 + k] if 1 + k < len(ops) else "?"
+        if got and "!" in got:
+            kind, what = "object", "an object clause is violated: " + got.split("!", 1)[1].replace("_", " ")
+        elif op == "t" and k == 0:
+            kind, what = "constructor", "NewLimitPool(%s) leaves the token counter at %s, the model (tokens = maxTokens) has %s" % (ops[0], got, want)
+        elif op == "t":
+            kind, what = "counter", "the token counter is %s after %s, the model has %s (tokens = maxTokens - outstanding)" % (got, " ".join(ops[1:1 + k]), want)
+        elif op.startswith("g"):
+            kind, what = "bound", "%s of %s Gets succeeded, the model says exactly %s (maxTokens = %s)" % ((got or "?")[1:], op[1:], (want or "?")[1:], ops[0])
+        else:
+            kind, what = "put", "operation %s answers %r, the model %r" % (op, got, want)
+        c.report("C14:limitpool:seq:" + kind, "LimitPool: " + what,
+                 {"kind": "script", "case": " ".join(ops[:2 + k]), "implementation": a[:k + 1], "model": b[:k + 1],
+                  "stderr": err[-600:] if rc != 0 else "",
+                  "how": "echo '<case>' | h c14-lpseq   (format: <maxTokens> g<n Gets> | p<k Puts> | t = token counter)"})
+    bs = budgets()
+    c.cov["limitpool_seq"] = {"scripts": len(lines), "agree": agree, "budgets": len(bs), "budget_max": max(bs),
+                              "budgets_exhausted_behaviourally": len([b for b in bs if b <= (5000 if tier == "quick" else 70000)]),
+                              "counter_reads_not_available": na, "objects_returned": objs}
+    c.cov["evaluations"] += len(lines)
+    c.cov["traces_validated_against_impl"] += agree
+    c.sample("limitpool script: " + lines[1][:200] + "  ->  " + (impl[1] if len(impl) > 1 else "?")[:200])
+
+
+# ---------------------------------------------------------------------------------------------------------------
+# SegmentKeysLock: the segment INDEX the implementation uses for a key (white-box: position of getLock(key) in s.locks,
+# and every public method probed on that very mutex) against SegKeyModel.seg_index (`modelrun segkey-index`).
+def gen_index(c, tier):
+    r = random.Random(c.seed * 13 + 1)
+    keys = list(KEYPOOL) + [b"y" * 1000, b"z" * 4096, bytes(range(256)) * 256, b"\xc3\x28", b"\xff" * 5, b"\xed\xa0\x80",
+                            b"\xf8\x88\x80\x80\x80", b"\x80", "日本語のキー".encode(), "🔒".encode(), b"a\x00b", b"\x00\x00"]
+    keys += [bytes(r.randrange(256) for _ in range(r.randint(1, 24))) for _ in range(12)]
+    # hashes at the ends of the uint32 range (top bit set / nearly 2^32 / nearly 0), found by search from the seed
+    hi = lo = 0
+    n = 0
+    while (hi < 3 or lo < 3) and n < 400000:
+        k = b"k%d-%d" % (c.seed, n)
+        n += 1
+        h = fnv1a(k)
+        if h >= 0xFFF00000 and hi < 3:
+            keys.append(k)
+            hi += 1
+        elif h < 0x00100000 and lo < 3:
+            keys.append(k)
+            lo += 1
+    sizes = [1, 2, 3, 7, 8, 1000, 65535, 65536, 65537, 2 ** 20 - 1, 2 ** 20, 2 ** 20 + 1] + [r.randint(1, 5000) for _ in range(8)]
+    if tier != "quick":
+        sizes += [2 ** 24 - 1, 2 ** 24 + 1] + [r.randint(1, 2 ** 20) for _ in range(20)]
+    lines = []
+    for sz in sorted(set(sizes)):
+        for k in keys:
+            lines.append(("%d %s" % (sz, k.hex())).strip())
+    return lines, keys, sorted(set(sizes))
+
+
+def segkey_index(c, binary, tier):
+    lines, keys, sizes = gen_index(c, tier)
+    text = "\n".join(lines) + "\n"
+    rc, impl, err = c.run_impl(binary, ["c14-segkey-index"], text)
+    model = c.run_model("segkey-index", text)
+    agree = na = reported = 0
+    for i, l in enumerate(lines):
+        f = l.split()
+        a = impl[i] if i < len(impl) else "crash"
+        b = model[i] if i < len(model) else "?"
+        c.note_case("ski:" + l, int(f[0]) >= 2 and len(f) > 1)
+        if a == "na":
+            na += 1
+            continue
+        if a == b:
+            agree += 1
+            continue
+        if reported >= 3:
+            continue
+        reported += 1
+        key = bytes.fromhex(f[1]) if len(f) > 1 else b""
+        if a.split()[0] == b and "!" in a:
+            c.report("C14:segkey:index:method", "SegmentKeysLock: with %s segments getLock(%r) is segment %s, but a public method does not work on that segment's mutex: %s"
+                     % (f[0], key[:40], b, a.split(None, 1)[1]),
+                     {"kind": "index", "case": l, "implementation": a, "model": b, "how": "echo '<case>' | h c14-segkey-index   (format: <segments> <hexkey>)"})
+        else:
+            c.report("C14:segkey:index", "SegmentKeysLock: with %s segments the key %r (FNV-1a %#x) uses segment %s, the model (hash mod size) says %s"
+                     % (f[0], key[:40], fnv1a(key), a, b),
+                     {"kind": "index", "case": l, "implementation": a, "model": b, "stderr": err[-600:] if rc != 0 else "",
+                      "how": "echo '<case>' | h c14-segkey-index   (format: <segments> <hexkey>)"})
+    hs = [fnv1a(k) for k in keys]
+    c.cov["segkey_index"] = {"cases": len(lines), "agree": agree, "accessor_not_available": na, "sizes": sizes, "keys": len(keys),
+                             "keys_hash_top_bit_set": len([h for h in hs if h >= 2 ** 31]), "keys_hash_ge_0xfff00000": len([h for h in hs if h >= 0xFFF00000]),
+                             "keys_hash_lt_0x00100000": len([h for h in hs if h < 0x00100000]), "longest_key": max(len(k) for k in keys),
+                             "not_reachable": "segment counts >= 2^31 (the lock array alone needs > 16 GiB)"}
+    c.cov["evaluations"] += len(lines)
+    c.cov["traces_validated_against_impl"] += agree
 
 
 def main(tier):
@@ -106,7 +281,7 @@ def main(tier):
     sbad = stress(c, binary, configs)
     c.cov["limitpool_stress"] = {"configs": configs, "violations": len(sbad)}
     for b in sbad:
-        c.report("C14:limitpool:stress:" + ("highwater" if "high-water" in b["result"] else "conservation" if "quiescence" in b["result"] else "large-budget" if "although maxTokens" in b["result"] else "other"),
+        c.report("C14:limitpool:stress:" + ("highwater" if "high-water" in b["result"] else "conservation" if "quiescence" in b["result"] else "large-budget" if "although maxTokens" in b["result"] else "object" if b["result"].startswith("object:") else "other"),
                  "LimitPool: " + b["result"], dict(kind="stress-run", **b))
     if broken and not sbad:
         # the correspondence no longer holds; search harder before giving up
@@ -117,6 +292,20 @@ def main(tier):
             c.report("C14:limitpool:lockstep", "LimitPool no longer corresponds to its interleaving model (theorems lp_outstanding_le_max, lp_conservation_at_quiescence do not transfer)",
                      {"kind": "lockstep-correspondence", "skeleton_problems": problems[:10], "mismatches": mism[:3],
                       "model_stderr": merr[-500:], "go_stderr": gerr[-500:]}, found_input=False)
+
+    # ---- LimitPool: budgets 0 .. 2^62 (constructor + exact bound + conservation + returned objects), sequential differential ----
+    try:
+        lpseq(c, binary, tier)
+    except Exception:
+        import traceback
+        c.report("C14:limitpool:seq:crash", "check part limitpool-seq crashed", {"kind": "internal", "trace": traceback.format_exc()[-3000:]}, found_input=False)
+
+    # ---- SegmentKeysLock: segment index of a key against seg_index ----
+    try:
+        segkey_index(c, binary, tier)
+    except Exception:
+        import traceback
+        c.report("C14:segkey:index:crash", "check part segkey-index crashed", {"kind": "internal", "trace": traceback.format_exc()[-3000:]}, found_input=False)
 
     # ---- SegmentKeysLock under concurrency: first-use and blocking exclusion (search oracle, chaos mode) ----
     rounds, gor = (300, 4) if tier == "quick" else (5000, 8)
@@ -174,13 +363,18 @@ def finish(c):
     c.finish(
         level="proof",
         rule="LimitPool: lock-step schedules (model-chosen interleavings of Get/Put statements of 5 goroutines, maxTokens 0..4) each executed on the real "
-             "goroutines; non-trivial = a step taken while another goroutine's failed decrement is not yet compensated; SegmentKeysLock: histories of "
+             "goroutines; non-trivial = a step taken while another goroutine's failed decrement is not yet compensated; "
+             "LimitPool scripts (NewLimitPool/Get/Put run alone) for every budget 2^k-1, 2^k, 2^k+1 (k <= 40), 1023..1025, 4095, 65535/6, 2^32-1..2^32+1, 2^62, 2^63-1: "
+             "token counter read white-box after construction and after every block, budgets <= 5000 exhausted with budget+3 Gets (exactly maxTokens succeed), "
+             "Put k / Get k+2, every returned object checked (non-nil, from the factory or Put, never held twice; nil with ok=false); "
+             "segment index of 50+ keys (empty, 64 KiB, invalid UTF-8, hashes at both ends of uint32) x 20 sizes (1 .. 2^20+1) against seg_index; SegmentKeysLock: histories of "
              "TryLock/TryRLock/Lock/RLock/Unlock/RUnlock over 1..64 segments and colliding / empty / long / non-ASCII keys; non-trivial = at least 5 ops incl. a release",
         assumptions=["fewer than 2^31 - maxTokens simultaneous callers (int32 counter), 0 <= maxTokens < 2^31",
                      "sync/atomic.Int32.Add is atomic and sequentially consistent; sync.RWMutex satisfies the rw specification of SegKeyModel.v (trusted)",
                      "interleavings inside one Go statement are not modelled (each LimitPool statement contains at most one atomic operation)"],
         trusted_base=["Coq 8.16.1 kernel + vm_compute", "extraction ExtrOcamlBasic only", "tools/instrument (yield points), hooks/verifhook, harness/lockstep controller",
-                      "ocaml/lockstep.ml + drv_limitpool.ml (label table), drv_segkey.ml, checks/c14.py"])
+                      "ocaml/lockstep.ml + drv_limitpool.ml (label table, limitpool-seq), drv_segkey.ml, checks/c14.py",
+                      "hooks/syncx/x_c14_verif.go (read-only accessors: token counter, position of getLock(key) in s.locks)"])
 
 
 if __name__ == "__main__":
